@@ -45,9 +45,9 @@ func c07Gen(c *vfCtx, emit func(c07Case)) {
 			{name, []vfCall{ok("snap", "", "GET / HTTP/1.1\r\nHost: x\r\n\r\nbody"), ok("snap", "", "v2"), ok("snap", "", c10Long)}},
 		}
 	}
-	names := []string{"TestA", "TestA/s", "TestAB", "FuzzA/seed#0", "Test1", "TestA/c_01", "TestA/c_1"}
+	names := []string{"TestA", "TestA/s", "TestAB", "FuzzA/seed#0", "Test1", "TestA/c_01", "TestA/c_1", "TestA/a:b?*"}
 	if c.thorough() {
-		names = append(names, "TestB", "TestA/s#01", "BenchmarkX", "TestA/c_001", "TestA/a:b", "TestA/[x]", "TestA/x.snap", "TestA/_%d", "TestÜ/ä")
+		names = append(names, "TestB", "TestA/s#01", "BenchmarkX", "TestA/c_001", "TestA/<a>|b", "TestA/[x]", "TestA/x.snap", "TestA/_%d", "TestÜ/ä")
 	}
 	counts := []int{1, 2, 3}
 	for ni, n1 := range names {
